@@ -54,6 +54,14 @@ def OBJ(pycls):
     return _ObjT(pycls)
 
 
+class STAR(T):
+    """Type of a *args parameter verified at a fixed arity n: the parameters are then named <name>0 .. <name>n-1."""
+
+    def __init__(self, n):
+        super().__init__(lambda v: z3.BoolVal(True), None, f"*{n}")
+        self.n = n
+
+
 def OPT(t):
     return T(lambda v, t=t: z3.Or(V.is_none(v), t.pred(v)), None, f"{t.name}|None")
 
@@ -475,6 +483,10 @@ def _frame_obligations(eng, con, pre, st, what):
     if fr is None:
         return
     fields, lists, sets = fr
+    # "nothing that existed before the call changed": objects allocated by the call itself (addresses above the
+    # allocation mark of the pre-state) are not part of the frame.  k is an arbitrary pre-existing address.
+    mark = len(pre.local_objs)
+    k = z3.Int(V.fresh_name("frame_addr"))
     for f, arr in st.heap.items():
         if f in fields:
             continue
@@ -482,11 +494,21 @@ def _frame_obligations(eng, con, pre, st, what):
         if base is None:
             base = z3.Const(f"H0.{f}", arr.sort())
         if not z3.eq(arr, base):
-            eng.oblige(st, f"frame ({what}): field {f} is not modified", arr == base, "frame")
+            eng.oblige(st, f"frame ({what}): field {f} of every pre-existing object is not modified", z3.Implies(k <= mark, z3.Select(arr, k) == z3.Select(base, k)), "frame")
     if not lists and not z3.eq(st.lists, pre.lists):
-        eng.oblige(st, f"frame ({what}): no list is modified", st.lists == pre.lists, "frame")
+        eng.oblige(st, f"frame ({what}): no pre-existing list is modified", z3.Implies(k <= mark, z3.Select(st.lists, k) == z3.Select(pre.lists, k)), "frame")
     if not sets and not z3.eq(st.sets, pre.sets):
-        eng.oblige(st, f"frame ({what}): no set is modified", st.sets == pre.sets, "frame")
+        eng.oblige(st, f"frame ({what}): no pre-existing set is modified", z3.Implies(k <= mark, z3.Select(st.sets, k) == z3.Select(pre.sets, k)), "frame")
+    for nm in sorted(set(st.aux) | set(pre.aux)):
+        if nm in getattr(con, "frame_aux", ()):
+            continue
+        a1, a0 = st.aux.get(nm), pre.aux.get(nm)
+        if a1 is None or not z3.is_expr(a1) or not z3.is_array(a1):
+            continue
+        if a0 is None:
+            a0 = z3.Const(nm + "0", a1.sort())
+        if not z3.eq(a1, a0):
+            eng.oblige(st, f"frame ({what}): library state {nm} of every pre-existing object is not modified", z3.Implies(k <= mark, z3.Select(a1, k) == z3.Select(a0, k)), "frame")
 
 
 def _raise_obligations(eng, con, params, pre, st, exc: Exc):
